@@ -4,6 +4,8 @@ import { genModule, listFixtureInputs, listCorpus, randomOptions, allOptionCombo
 import * as C06 from './C06.mjs';
 import * as C10 from './C10.mjs';
 import * as C14 from './C14.mjs';
+import * as C20 from './C20.mjs';
+import * as C18 from './C18.mjs';
 
 export const id = 'C09';
 const WANT = ['frame', 'base'];
@@ -34,6 +36,7 @@ export function* generate({ tier, seed }) {
   for (const g of C06.generate({ tier, seed })) { if (rng() < keep) yield { gid: `C09-${n++}`, src: g.src, syntax: 'jsx', feature: `ctx|${g.feature}`, want: WANT, variants: g.variants.slice(0, 1) }; }
   for (const g of C10.generate({ tier, seed })) { if (rng() < keep * 0.3) { const c = g.variants.find((v) => v.vid === 'composed'); yield { gid: `C09-${n++}`, src: c.src, syntax: 'jsx', feature: `compose|${g.feature}`, want: WANT, variants: [{ vid: 'v0', options: c.options }] }; } }
   for (const g of C14.generate({ tier, seed })) { if (g.gid.includes('-iso-') && rng() < keep * 2) yield { gid: `C09-${n++}`, src: g.src, syntax: g.syntax, feature: `typed|${g.feature}`, want: WANT, variants: g.variants.slice(0, 2) }; }
+  for (const [nm, mod] of [['C20', C20], ['C18', C18]]) for (const g of mod.generate({ tier, seed })) { if (rng() < keep * 1.5) yield { gid: `C09-${n++}`, src: g.src, syntax: 'tsx', feature: `dc|${nm}|${g.feature}`, want: WANT, variants: g.variants.slice(0, 1) }; }
   // 4. token mutations of real-world JS (still JSX-free when they parse)
   const js = listCorpus('js');
   const nMut = tier === 'quick' ? 1200 : 20000;
